@@ -271,6 +271,59 @@ def model_case(ctx: Ctx, rnd, tree, n, subst, site, treekind, tipmode, seqs):
                       f"{newick(tree, names)} seqs={seqs}", {"doc": doc, "expected": total, "got": got})
 
 
+AA_ORDER = "ACDEFGHIKLMNPQRSTVWY"          # state order of AminoAcidDataType
+
+
+def aa_case(ctx: Ctx, rnd, model, tipmode):
+    """Amino-acid alignment on a 3-taxon unrooted tree: 20 states, N is asparagine (a STATE, not 'unknown'), columns made only of N and / or
+    gaps must count like any other column.  Reference: marginalisation over the 20 internal states with the model's own normalised rate
+    matrix exponentiated independently (scaling and squaring in numpy)."""
+    import torch
+    from torchtree.core.utils import process_object
+    n = 3
+    names = [f"t{i}" for i in range(n)]
+    tree = (0, (1, 2))
+    cols = ["NNN", "N-N", "?N-", "---"] + ["".join(rnd.choice(AA_ORDER + "-X") for _ in range(n)) for _ in range(5)] + ["NNN"]
+    seqs = ["".join(c[i] for c in cols) for i in range(n)]
+    bl = [round(rnd.uniform(0.05, 0.8), 4) for _ in range(2 * n - 3)]
+    doc = [taxa_json(names), {"id": "data_type", "type": "AminoAcidDataType"},
+           {"id": "alignment", "type": "Alignment", "datatype": "data_type", "taxa": "taxa", "sequences": [{"taxon": names[i], "sequence": seqs[i]} for i in range(n)]},
+           {"id": "like", "type": "TreeLikelihoodModel",
+            "tree_model": {"id": "tree", "type": "UnRootedTreeModel", "newick": newick(tree, names), "taxa": "taxa", "branch_lengths": P("bl", bl)},
+            "site_model": {"id": "site", "type": "ConstantSiteModel"}, "substitution_model": {"id": "sm", "type": model},
+            "site_pattern": {"id": "patterns", "type": "SitePattern", "alignment": "alignment"}}]
+    if tipmode == "states":
+        doc[-1]["use_tip_states"] = True
+    ctx.add("evaluations")
+    ctx.distinct(("aa", model, tipmode, "".join(seqs)), True)
+    dic = {}
+    try:
+        for e in doc:
+            process_object(e, dic)
+        got = float(dic["like"]())
+    except Exception as e:
+        ctx.violation(f"C01:model:raises:{model}:aa:{tipmode}", f"TreeLikelihoodModel raised {type(e).__name__}: {e}", {"doc": doc})
+        return
+    sm = dic["sm"]
+    Q = sm.q().detach().reshape(20, 20)
+    pi = sm.frequencies.detach().reshape(-1)
+    Q = (Q / -(torch.diagonal(Q) * pi).sum()).tolist()
+    pi = pi.tolist()
+    triples, root = O.postorder_triples(tree, n)
+    bl_by_node = {i: bl[i] for i in range(2 * n - 3)}
+    bl_by_node[2 * n - 3] = 0.0
+    mats = [{c: O.expm_np(Q, b).tolist() for c, b in bl_by_node.items()}]
+
+    def tset(ch):
+        return {AA_ORDER.index(ch)} if ch in AA_ORDER else set(range(20))
+    total = 0.0
+    for col in cols:
+        total += math.log(O.marginal(triples, root, n, [tset(col[leaf]) for leaf in range(n)], mats, pi, [1.0], 20))
+    if not abs(got - total) <= 1e-8 * max(1.0, abs(total)):
+        ctx.violation(f"C01:model:{model}:aa:{tipmode}", f"amino-acid alignment {seqs}: log-likelihood {got!r} differs from marginalisation over the 20 states {total!r}",
+                      {"doc": doc, "expected": total, "got": got})
+
+
 def all_topologies(n):
     """One ordered tree per labelled rooted topology (canonical child order), plus their mirror images."""
     out = []
@@ -355,9 +408,16 @@ def run(ctx: Ctx):
                 seqs = ["".join(rnd.choice("ACGTRYN-") for _ in range(4)) for _ in range(n)]
                 model_case(ctx, rnd, tree, n, rnd.choice(list(SUBST)), rnd.choice(list(SITE)), rnd.choice(["unrooted", "time-variable"]),
                            rnd.choice(["plain", "ambiguities", "states"]), seqs)
+    # amino-acid alphabet at the model level (alignment -> site patterns -> tip partials / states -> likelihood)
+    for model in ("LG", "WAG"):
+        for tipmode in ("plain", "states"):
+            for _ in range(1 if quick else 4):
+                aa_case(ctx, rnd, model, tipmode)
+                ncase += 1
     ctx.cov["model_level_cases"] = ncase
     ctx.cov["exhaustive"] = True
     ctx.cov["rule"] = ("kernel level: every TLC-emitted (tree, tip sets) case as one site of a call per tree; model level: one case per "
                        "(substitution, site, tree/clock, tip representation, topology, alignment); non-trivial = alignment with ambiguity / gap symbols")
-    ctx.assumptions += ["codon / amino-acid alphabets are covered at the rate-matrix level (C04) and by the kernel-level check (the kernels are alphabet-agnostic), not at the model level",
+    ctx.assumptions += ["the codon alphabet is covered at the rate-matrix level (C04) and by the kernel-level check (the kernels are alphabet-agnostic), not at the model level; "
+                        "amino-acid alignments (LG, WAG) are checked at the model level with the model's own rate matrix exponentiated independently",
                         "reference transition matrices: mpmath expm of the spec's Q (C04) with the spec's category rates (C05)"]
